@@ -40,6 +40,13 @@ def run(ctx):
     r.floor("C17.cutter", 80)
     ctx.guard(raise_inventory, ctx, "C17")
     ctx.guard(accessor_totality, ctx, "C17.accessor-totality")
+    # ... which only helps if the accessors work from the vetted match (structure found *and* screened): an accessor that
+    # searches on its own answers for a record is_valid() rejects
+    from ..kernels import run_kernels
+    for kid in ("K7", "K8", "K9"):
+        r.skip.update({kid + ".fragment", kid + ".slice-of-rotation", kid + ".fragment-plain-record", kid + ".fragment-annotations"})
+    r.skip.update({"K12.source-feature", "K10.accessor"})
+    run_kernels(ctx, ["K7", "K8", "K9", "K10"], "C17")
     ctx.guard(k19_match, ctx, "C17")
     ctx.guard(collect_walk_effects, ctx)
     ctx.guard(kernel_raise_classes, ctx, "C17.assembly-raises")
